@@ -123,6 +123,7 @@ struct Verdict {
   bool ok = true;
   std::string msg;
   bool nontrivial = false;
+  long evals = 1;                    // executions this case stands for (e.g. damaged reads enumerated inside one case)
   bool vacuous = false;              // e.g. encoder refused: the oracle said nothing
   std::string excluded;              // id of the open known finding this case was steered away from
   std::vector<std::string> labels;   // class labels for the evidence histogram
@@ -232,8 +233,8 @@ inline std::string jesc(const std::string &s) {
 
 inline void record(const Prop &p, const std::string &txt, const Verdict &v) {
   State &s = st();
-  s.evaluations++;
-  s.per_prop[p.name]++;
+  s.evaluations += v.evals;
+  s.per_prop[p.name] += v.evals;
   if (v.vacuous) { s.vacuous++; s.classes["vacuous"]++; }
   if (!v.excluded.empty()) { s.excluded++; s.excluded_by[v.excluded]++; }
   for (auto &l : v.labels) s.classes[l]++;
